@@ -115,6 +115,22 @@ func renderDocRaw(n *xNode, variant int) []byte {
 }
 
 // tokensOf: the token stream encoding/xml sees (self-check of the renderer and well-formedness oracle)
+// simpleTexts: (start tag, text) of every element whose whole content is one text run, verbatim -- the text of such an element
+// is no inter-element white space, whatever it consists of
+func simpleTexts(doc []byte) []string {
+	toks, err := tokensOf(doc)
+	if err != nil {
+		return []string{"!" + err.Error()}
+	}
+	var out []string
+	for i := 1; i+1 < len(toks); i++ {
+		if strings.HasPrefix(toks[i], "T:") && strings.HasPrefix(toks[i-1], "<") && !strings.HasPrefix(toks[i-1], "</") && strings.HasPrefix(toks[i+1], "</") {
+			out = append(out, toks[i-1]+"|"+toks[i])
+		}
+	}
+	return out
+}
+
 func tokensOf(doc []byte) ([]string, error) {
 	d := xml.NewDecoder(bytes.NewReader(doc))
 	var toks []string
@@ -896,6 +912,19 @@ func replayEsc(line []byte, a *Acc) {
 		b, err := m.Xml()
 		if err != nil || string(b) != expX[pos] {
 			one("esc:enc:bytes:"+pos, fmt.Sprintf("Map.Xml = %q (%v), specification %q", b, err, expX[pos]))
+			continue
+		}
+		// the same value held as []byte (a documented value type of the encoder): the same bytes, escaped once
+		bs, bs2 := []byte(l.S), []byte(l.S2)
+		twin := map[string]mxj.Map{
+			"elem":  {"a": bs},
+			"attr":  {"a": map[string]interface{}{"-x": bs}},
+			"mixed": {"a": map[string]interface{}{"#text": bs, "b": ""}},
+			"list":  {"a": []interface{}{bs, "x"}},
+			"attr2": {"a": map[string]interface{}{"-x": bs, "-y": bs2}},
+		}[pos]
+		if tb, terr := twin.Xml(); terr != nil || string(tb) != expX[pos] {
+			one("esc:enc:bytes-value:"+pos, fmt.Sprintf("with the value held as []byte Map.Xml = %q (%v), specification %q", tb, terr, expX[pos]))
 			continue
 		}
 		bi, erri := m.XmlIndent("", " ")
